@@ -516,6 +516,15 @@ fn op_keys(args: &[String]) -> String {
 fn run(name: &str, args: &[String]) -> Option<String> {
     if name == "wire.ora" { return Some(op_ora(args)); }
     if name == "wire.keys" { return Some(op_keys(args)); }
+    if name == "wire.zstvec" {
+        // Vec<()> (zero-width elements; not a protocol type): element count / time versus input length
+        let bs = hx(&args[0]);
+        let t0 = std::time::Instant::now();
+        let mark = alloc_mark();
+        let r = Vec::<()>::from_bytes(&bs);
+        let peak = alloc_peak_since(mark);
+        return Some(match r { Ok(v) => format!("ok len={} A:{} MS:{}", v.len(), peak, t0.elapsed().as_millis()), Err(_) => "err".into() });
+    }
     if name == "wire.types" {
         return Some(TABLE.with(|t| t.iter().map(|e| e.name).collect::<Vec<_>>().join(",")));
     }
